@@ -393,6 +393,35 @@ static std::string run_case(const Args& a, long i, const std::string& path) {
         }
         if (cs.v != "viol" && bad) mt.bin("valid_cell_from_input_that_is_not_a_cell:" + fams[0]);
     }
+    // ---- a second initialisation in the same process: the same file with every point stretched along one axis and shifted (same cell ids,
+    //      same node / face counts, same l_min, other coordinates).  The result must describe the NEW surface.
+    if (mode == TRI_ON && outcome == "cells" && cs.v != "viol" && !bad && a.geti("reinit", 1) != 0) {
+        double st[3] = {1, 1, 1}; st[g.range(0, 2)] = g.uni(1.3, 2.0); const double sh[3] = {scale * g.uni(0.5, 3), scale * g.uni(-3, -0.5), scale * g.uni(0.5, 3)};
+        std::vector<Poly> cells2 = cells; for (auto& pc : cells2) for (auto& q : pc.P) for (int d = 0; d < 3; d++) q[d] = q[d] * st[d] + sh[d];
+        std::vector<std::array<double, 3>> extra2 = extra; for (auto& q : extra2) for (int d = 0; d < 3; d++) q[d] = q[d] * st[d] + sh[d];
+        const std::string text2 = vtk_text(cells2, type_ids, extra2);
+        { FILE* f = fopen(path.c_str(), "w"); if (f) { fputs(text2.c_str(), f); fclose(f); } }
+        std::vector<cell_ptr> out2; std::string outcome2, what2;
+        try { simulation_initializer init2(sp, types, false); out2 = init2.get_cell_lst(); outcome2 = "cells"; }
+        catch (const intialization_exception& e) { outcome2 = "initialization_exception"; }
+        catch (const std::exception& e) { outcome2 = "other_exception"; what2 = demangled(typeid(e).name()) + ": " + e.what(); }
+        catch (...) { outcome2 = "other_exception"; what2 = "unknown"; }
+        if (!a.geti("keep_files", 0)) unlink(path.c_str());
+        mt.bin("second_initialisation:" + outcome2);
+        if (outcome2 == "other_exception") cs.viol("wrong_exception_type:second_initialisation", "second initialisation in the same process: " + what2);
+        else if (outcome2 == "cells") {
+            if (out2.size() != (size_t)ncell) cs.viol("cell_count:second_initialisation", "second initialisation returned " + std::to_string(out2.size()) + " cells for " + std::to_string(ncell));
+            for (size_t k = 0; k < out2.size() && cs.v != "viol"; k++) {
+                orc::Geo geo2; orc::Topo topo2; rmu::Inv r2 = rmu::check_cell(*out2[k], true, nullptr, false, &geo2, &topo2);
+                if (!r2.ok) { cs.viol("invalid_cell:" + r2.key + ":second_initialisation", "second initialisation in the same process returned an invalid cell: " + r2.msg); break; }
+                const orc::Geo& gi = surf[k].geo; R L2 = 0, outside = 0, shrink = 0;
+                for (int d = 0; d < 3; d++) { R lo = gi.lo[d] * st[d] + sh[d], hi = gi.hi[d] * st[d] + sh[d]; L2 = std::max(L2, hi - lo); outside = std::max({outside, lo - geo2.lo[d], geo2.hi[d] - hi}); shrink = std::max({shrink, geo2.lo[d] - lo, hi - geo2.hi[d]}); }
+                if (outside > 1e-9L * (L2 + std::fabs((R)sh[0]) + std::fabs((R)sh[1]) + std::fabs((R)sh[2]))) { cs.viol("unfaithful:aabb_outside_input:second_initialisation", "second initialisation in the same process (same cell ids and counts, other coordinates): bounding box of returned cell " + std::to_string(k) + " exceeds the bounding box of its input by " + std::to_string((double)(outside / L2)) + " L"); break; }
+                if (shrink / lmin > c1) { cs.viol("unfaithful:aabb_shrunk:second_initialisation", "second initialisation in the same process (same cell ids and counts, other coordinates): a side of the bounding box of returned cell " + std::to_string(k) + " lies " + std::to_string((double)(shrink / lmin)) + " l_min inside the bounding box of its input"); break; }
+                mt.bin("second_initialisation_cells_validated");
+            }
+        }
+    }
     // ---- Poisson point cloud of the public entry point (first cell of admissible inputs, triangulation enabled) ---
     long cloud_n = 0;
     if (mode == TRI_ON && cs.v != "viol" && !a.geti("no_cloud", 0)) {
